@@ -424,7 +424,7 @@ def _pytype_to_string(field_data, bit_config):
     if field_python_type in ('int', 'long'):
         return_string = format(int(field_data), '0' + str(bit_config.get('field_length', 0)) + 'd')
     if field_python_type == "decimal":
-        return_string = format(decimal.Decimal(field_data), '0' + str(bit_config.get('field_length', 0)) + 'f')
+        return_string = format(decimal.Decimal(field_data), '0' + str(bit_config.get('field_length') or '') + 'f')
     if field_python_type == "datetime":
         if not isinstance(field_data, datetime.datetime):
             field_data = _get_date_from_string(field_data)
